@@ -885,6 +885,25 @@ func (env *specEnv) ghost(name string, targs []ast.Expr, e *ast.CallExpr) SV {
 			return c.evalBool(ret.Results[0])
 		}()
 		if name == "forall" {
+			if x.recordForalls && len(decls) == 1 && len(fl.Type.Params.List) == 1 && len(fl.Type.Params.List[0].Names) == 1 {
+				// an assumed precondition: remember how to instantiate it (instHints)
+				bname := fl.Type.Params.List[0].Names[0].Name
+				btype := env.info.Types[fl.Type.Params.List[0].Type].Type
+				if bs := x.enc.sortOf(btype); bs == x.enc.isz() {
+					cc := c
+					x.assumedForalls = append(x.assumedForalls, func(v Term) Term {
+						c2 := cc
+						c2.bound = map[string]Term{}
+						for k, bv := range cc.bound {
+							c2.bound[k] = bv
+						}
+						c2.bound[bname] = v
+						x.pure++
+						defer func() { x.pure-- }()
+						return mkImplies(x.enc.rangeFact(v, btype), c2.evalBool(ret.Results[0]))
+					})
+				}
+			}
 			return T(SBool, fmt.Sprintf("(forall (%s) %s)", strings.Join(decls, " "), mkImplies(mkAnd(ranges...), body).S))
 		}
 		return T(SBool, fmt.Sprintf("(exists (%s) %s)", strings.Join(decls, " "), mkAnd(append(ranges, body)...).S))
